@@ -11,7 +11,7 @@ T = {
          "Meeus ch.49/ch.25 series and Espenak-Meeus delta-T as the independent astronomy (good to ~3-25 min: events that close to UTC+8 midnight are counted and excluded); ICU 72 golden table"),
  "C03": ("structure/adjacency/root-of-ephemeris (hook) checks on every year's 31-term table plus a 20-line lookup model for prev/next/current term at second resolution on generated moments",
          "library's own apparent-longitude function through the verif hook for the 1 s root check; Meeus low-precision sun (25 min) as independent check for years 1..3000"),
- "C04": ("differential against an integer Julian-Day-Number model (R-civil) on generated date-times, real-valued JDs and steps; exhaustive month tables in the thorough tier",
+ "C04": ("differential against an integer Julian-Day-Number model (R-civil) on generated date-times, real-valued JDs and steps of any size in range; generated routes to an object (constructors, conversions, list rows, stepping, read-only calls in between) must answer like NewSolar of its own fields; exhaustive month tables in the thorough tier",
          "R-civil integer JDN formulas (Julian to 1582-10-04, Gregorian from 1582-10-15) define the civil calendar"),
  "C05": ("sexagenary model (R-gz) + R-civil + the object's own term table vs every pillar accessor on generated boundary moments (Jie instants +-1 s, 23:00, New Year, Lichun)",
          "term instants themselves are C03's job; anchor day pillar (JDN-11) mod 60, year pillar (Y-4) mod 60"),
@@ -19,7 +19,7 @@ T = {
          "flat model list is built from each year's in-year months as reported by the library; reform eras AD 8-23 / 236-240 excluded where the statement excludes them"),
  "C07": ("acceptance-set equality: civil constructors vs R-civil validity on boxes around validity; lunar constructors vs the image of Solar.GetLunar(); stateful chains with a field invariant after every step",
          "image of the forward conversion as the definition of existing lunar dates"),
- "C08": ("reflection-discovered zero-argument accessors called on every reachable object for generated dates; panics, index ranges, vocabulary membership, duplicates",
+ "C08": ("reflection-discovered zero-argument accessors (and the lunar date's argument-taking ones, then the zero-argument pass again) called on every reachable object for generated dates; the packed-table decoders' whole domain asked in four orders in four fresh processes; panics, index ranges, vocabulary membership, duplicates",
          "exported tables (and hook-exported yi/ji, shen-sha vocabularies) as the published vocabularies; explicit may-be-empty list"),
  "C09": ("generated call histories vs fresh-cache digests and vs the same probe in a fresh child process (rapid-generated histories, years -799..9990) and generated concurrent programs vs sequential digests, also under the Go race detector; deadlock via the runtime detector in a child process",
          "Go scheduler is not controlled: schedules are sampled; race detector finds unordered executed access pairs"),
